@@ -3,6 +3,7 @@
 package main
 
 import (
+	"path/filepath"
 	"fmt"
 	"sort"
 	"strings"
@@ -72,7 +73,14 @@ func propC19(r *Run) {
 		}
 		w.fs.SetPerm(hdir, fsMode(dirPerm))
 		w.ex.Behave = func(path string) simexec.Behaviour { return beh[path] }
-		a, err := w.bootAgent(cfg, "", "", "", hdir)
+		hooksArg := hdir
+		if r.Choose("relative-hooks-dir", 4) == 0 {
+			// the operator gave --hooks-dir relative to the directory the agent was started in
+			w.fs.Cwd = "/etc/whawty"
+			hooksArg = "hooks.d"
+			r.Count("probe:relative-hooks-directory")
+		}
+		a, err := w.bootAgent(cfg, "", "", "", hooksArg)
 		if err != nil {
 			r.Fail("harness/boot", "%v", err)
 		}
@@ -202,7 +210,7 @@ func propC19(r *Run) {
 				// steps later every round has looked at the directory again
 				r.Fail("hooks/ineligible-executed", "%s was executed at step %d although the hooks directory has been world-writable since step %d", p.Path, p.Step, chmodStep)
 			}
-			if len(p.Args) != 2 || p.Args[0] != p.Path || p.Args[1] != "update" {
+			if len(p.Args) != 2 || (p.Args[0] != p.Path && filepath.Join(w.fs.Cwd, p.Args[0]) != p.Path) || p.Args[1] != "update" {
 				r.Fail("hooks/argv", "%s started with argv %q, expected [path update]", p.Path, p.Args)
 			}
 			envN := 0
